@@ -313,6 +313,8 @@ def convInt (lo hi : Int) (lit : String) : String :=
   | none => "BADREQ"
   | some n =>
     if n < lo ∨ n > hi then "BADREQ" else
+    -- Decimal::from_i128(i128::MIN) negates the value: overflow panic with overflow checks on
+    if n = -170141183460469231731687303715884105728 then "PANIC" else
     -- Decimal::from_{i,u}N(..).unwrap_or_default(): 0 when the magnitude does not fit 96 bits
     if n.natAbs < mantLimit then s!"OK\t{(valueSexp (Value.ofInt n)).toStr}\texact"
     else s!"OK\t{(valueSexp (Value.ofInt 0)).toStr}\tinexact"
